@@ -352,6 +352,11 @@ func resultTypeOfSig(sig *types.Signature) types.Type {
 // frameObligations: every heap component written by the function is unchanged outside the declared footprint
 // (objects allocated during the call are exempt).
 func (e *Enc) frameObligations(fr *Frame, final *State, fp *footprint, c *Contract) {
+	// a path on which everything was havocked (unknown callee, callee that `modifies everything`) can change heap
+	// components this encoding never names: no finite modifies clause covers it
+	if hc := havocCond(final); hc != "false" {
+		e.addObl(&Obligation{Name: "frame:everything", Kind: "frame", Label: "", Clause: "modifies " + strings.Join(c.ModSrc, ", ") + " — but a callee on this path may modify everything", Reach: and(final.reach, hc), Goal: "false"})
+	}
 	keys := make([]string, 0, len(e.writeLog))
 	for k := range e.writeLog {
 		keys = append(keys, k)
@@ -389,4 +394,28 @@ func (e *Enc) frameObligations(fr *Frame, final *State, fp *footprint, c *Contra
 		goal := implies(and(conds...), eq("(select "+exitT+" "+sk+")", "(select "+entryT+" "+sk+")"))
 		e.addObl(&Obligation{Name: "frame:" + k, Kind: "frame", Label: "", Clause: "modifies " + strings.Join(c.ModSrc, ", ") + " — " + k + " unchanged elsewhere", Reach: final.reach, Goal: goal})
 	}
+}
+
+// havocCond: condition (over the path conditions recorded at joins) under which st was reached through a point
+// where everything was havocked.
+func havocCond(st *State) string {
+	return havocCondMemo(st, map[*State]string{})
+}
+
+func havocCondMemo(st *State, memo map[*State]string) string {
+	if r, ok := memo[st]; ok {
+		return r
+	}
+	r := "false"
+	if st.mergeOf != nil {
+		var cs []string
+		for i, p := range st.mergeOf {
+			cs = append(cs, and(st.mergeConds[i], havocCondMemo(p, memo)))
+		}
+		r = or(cs...)
+	} else if st.epoch > 0 {
+		r = "true"
+	}
+	memo[st] = r
+	return r
 }
